@@ -879,6 +879,70 @@ static void build(vf::Plan &plan, const vf::Opts &o)
                                describe_val(g_po_vals[q.v]).c_str());
                });
 
+    // ---- width sweep: every minimum width up to the bound (the output crosses the 256-byte in-object buffer of the
+    //      stream it is assembled in and the following doublings), three alignments, three pad kinds
+    {
+        static std::vector<Val> wv;
+        wv.push_back(int_val(T_INT, (uint64_t)(long long)-42));
+        wv.push_back(int_val(T_ULLONG, ~uint64_t(0)));
+        wv.push_back(text_val(T_CSTR, U"ab"));
+        wv.push_back(text_val(T_STSTRING, U"twenty-characters-ok"));
+        wv.push_back(int_val(T_BOOL, 1));
+        const unsigned WMAX = o.thorough() ? 2100 : 600;
+        static const char *const WA[3] = {"", "<", ">"};
+        static const char *const WP[3] = {"", "0", "_*"};
+        static const char *const WC[3] = {"", "x", "#x"};
+        auto mk = [WMAX](uint64_t i, unsigned &vi) {
+            vi = (unsigned)vf::take(i, wv.size());
+            std::string f = "{";
+            f += WA[vf::take(i, 3)];
+            f += WP[vf::take(i, 3)];
+            unsigned cl = (unsigned)vf::take(i, 3);
+            if (cl == 2) f += "#";
+            f += std::to_string(1 + (unsigned)i);
+            if (cl) f += "x";
+            return "[" + f + "}]";
+        };
+        plan.stage(strf("one-field: width sweep 1..%u x 3 alignments x {none,0,_*} x {none,x,#x} x %zu values", WMAX, wv.size()),
+                   (uint64_t)wv.size() * 3 * 3 * 3 * WMAX,
+                   [mk](uint64_t i, Ctx &c) {
+                       unsigned vi;
+                       std::string f = mk(i, vi);
+                       const Val &v = wv[vi];
+                       ref::Rendered want = ref::render(ref::parse(f), {model_of(v)});
+                       if (want.outcome != ref::R_TEXT) {
+                           VF_COUNT("out:skipped(reference-not-text)");
+                           return;
+                       }
+                       const char *fp = g_arena.place(f.c_str(), f.size() + 1);
+                       ST::string got;
+                       vf::Outcome oc = vf::guard([&] { got = call1(fp, v); });
+                       VF_COUNT("ops");
+                       const char *fam = is_int_type(v.type) ? "int" : v.type == T_BOOL ? "bool" : "text";
+                       if (!oc.ok()) {
+                           c.fail(strf("field:width-sweep:%s:unexpected-%s", fam, out_slug(oc).c_str()),
+                                  strf("ST::format(%s, %s) -> %s", vf::vis(f).c_str(), describe_val(v).c_str(), oc.str().c_str()));
+                           return;
+                       }
+                       VF_COUNT("validated");
+                       std::string g(got.c_str(), got.size());
+                       if (g == want.bytes) {
+                           VF_COUNT("out:equal");
+                           c.nontrivial();
+                           return;
+                       }
+                       const char *wc = want.bytes.size() <= 257 ? "output<=255" : want.bytes.size() <= 513 ? "output 256..511" : "output>=512";
+                       c.fail(strf("field:width-sweep:%s:%s:%s", fam, diff_kind(want.bytes, g), wc),
+                              strf("ST::format(%s, %s) = %s (%zu bytes) ; specified rendering %s (%zu bytes)", vf::vis(f).c_str(), describe_val(v).c_str(),
+                                   vf::vis(g.substr(0, 40)).c_str(), g.size(), vf::vis(want.bytes.substr(0, 40)).c_str(), want.bytes.size()));
+                   },
+                   [mk](uint64_t i) {
+                       unsigned vi;
+                       std::string f = mk(i, vi);
+                       return strf("ST::format(%s, %s)", vf::vis(f).c_str(), describe_val(wv[vi]).c_str());
+                   });
+    }
+
     for (unsigned k = 0; k <= 3; ++k)
         plan.stage(strf("multi-field: %u field(s) from 10 x literals from 6 x 1..3 arguments", k), multi_count(k, 6),
                    [k](uint64_t i, Ctx &c) { run_multi(c, decode_multi(i, k, LIT_ALL, 6)); },
